@@ -178,13 +178,15 @@ func (i *Int) Clone() kyber.Scalar {
 
 // Zero set the Int to the value 0.  The modulus must already be initialized.
 func (i *Int) Zero() kyber.Scalar {
-	i.V = *compatible.NewInt(0)
+	// reduce so that the value has the announced size of the modulus
+	i.V = *compatible.NewInt(0).Mod(compatible.NewInt(0), i.M)
 	return i
 }
 
 // One sets the Int to the value 1.  The modulus must already be initialized.
 func (i *Int) One() kyber.Scalar {
-	i.V = *compatible.NewInt(1)
+	// reduce so that the value has the announced size of the modulus
+	i.V = *compatible.NewInt(0).Mod(compatible.NewInt(1), i.M)
 	return i
 }
 
